@@ -432,23 +432,21 @@ theorem two_opt_parts {A B A' B' : List Bytes}
     · have := hAB' rfl; subst this; simp at h
     · rcases hB with rfl | ⟨b, rfl⟩ <;> rcases hB' with rfl | ⟨b', rfl⟩ <;> simp_all
 
-theorem id_inj_shape {base base' : Bytes} {subs subs' : List Bytes}
+theorem shapeCore_inj {base base' : Bytes} {subs subs' : List Bytes}
     {names names' : Option (List Bytes)} {cards cards' : Option (List Nat)}
-    {lp lp' links links' : Option (List Bool)} {impl impl' : Bool}
-    (hs : (IdKey.shape base subs names cards lp links impl).NoSep)
-    (hs' : (IdKey.shape base' subs' names' cards' lp' links' impl').NoSep)
-    (hc : (IdKey.shape base subs names cards lp links impl).callerShaped)
-    (hc' : (IdKey.shape base' subs' names' cards' lp' links' impl').callerShaped)
-    (he : idPreimage (.shape base subs names cards lp links impl) =
-          idPreimage (.shape base' subs' names' cards' lp' links' impl')) :
-    (IdKey.shape base subs names cards lp links impl).norm =
-      (IdKey.shape base' subs' names' cards' lp' links' impl').norm := by
-  obtain ⟨hb, hsubs, hnames, hcards⟩ := hs
-  obtain ⟨hb', hsubs', hnames', hcards'⟩ := hs'
-  obtain ⟨hcn, hcc, _, _⟩ := hc
-  obtain ⟨hcn', hcc', _, _⟩ := hc'
-  simp only [idPreimage, Option.some.injEq] at he
-  simp only [IdKey.norm]
+    {lp lp' links links' : Option (List Bool)} {impl impl' : Bool} {srcs srcs' : Option (List Bytes)}
+    (hs : (IdKey.shape base subs names cards lp links impl srcs).NoSep)
+    (hs' : (IdKey.shape base' subs' names' cards' lp' links' impl' srcs').NoSep)
+    (hc : (IdKey.shape base subs names cards lp links impl srcs).callerShaped)
+    (hc' : (IdKey.shape base' subs' names' cards' lp' links' impl' srcs').callerShaped)
+    (he : shapeCore base subs names cards lp links impl = shapeCore base' subs' names' cards' lp' links' impl') :
+    base = base' ∧ subs = subs' ∧ truthy names = truthy names' ∧ truthy cards = truthy cards' ∧
+      lp = lp' ∧ links = links' ∧ impl = impl' := by
+  obtain ⟨hb, hsubs, hnames, hcards, _⟩ := hs
+  obtain ⟨hb', hsubs', hnames', hcards', _⟩ := hs'
+  obtain ⟨hcn, hcc, _, _, _⟩ := hc
+  obtain ⟨hcn', hcc', _, _, _⟩ := hc'
+  simp only [shapeCore] at he
   -- peel `;repr(links)` and `;repr(lp)` off the end
   have he1 : ∀ (P rb rl rk : Bytes), P ++ rb ++ [59] ++ rl ++ [59] ++ rk = (P ++ rb ++ [59] ++ rl) ++ 59 :: rk := by
     intros; simp
@@ -548,11 +546,115 @@ theorem id_inj_shape {base base' : Bytes} {subs subs' : List Bytes}
         have := join_inj_ne (hne cs (truthy_some hcs).2) (hne cs' (truthy_some hcs').2)
           (h58 cs (hcards cs (truthy_some hcs).1)) (h58 cs' (hcards' cs' (truthy_some hcs').1)) ec
         rw [hcs, hcs', map_single_inj this]
-  rw [e1, es, en', ec', elp, elinks, himpl]
+  exact ⟨e1, es, en', ec', elp, elinks, himpl⟩
 
 end EdbVerif.Desc
 
 namespace EdbVerif.Desc
+
+/-! ### the `;sources` tail (fix d2d2129) -/
+
+theorem uuidText_notin {s : Bytes} (h : uuidText s) : 0 ∉ s ∧ 58 ∉ s ∧ 59 ∉ s := by
+  refine ⟨fun hm => ?_, fun hm => ?_, fun hm => ?_⟩ <;>
+  · have := h.2 _ hm; omega
+
+theorem semi_notin_join_uuid {l : List Bytes} (h : ∀ s ∈ l, uuidText s) : 59 ∉ join 58 l := by
+  intro hm
+  rcases mem_join hm with h0 | ⟨a, ha, h0⟩
+  · omega
+  · exact (uuidText_notin (h a ha)).2.2 h0
+
+theorem join_uuid_head {l : List Bytes} (hl : l ≠ []) (h : ∀ s ∈ l, uuidText s) :
+    ∃ c r, join 58 l = c :: r ∧ c ≠ 78 ∧ c ≠ 91 := by
+  cases l with
+  | nil => exact absurd rfl hl
+  | cons a l =>
+    have ha := h a (by simp)
+    cases a with
+    | nil => exact absurd rfl ha.1
+    | cons c r =>
+      have hc := ha.2 c (by simp)
+      cases l with
+      | nil => exact ⟨c, r, by rw [join_single], by omega, by omega⟩
+      | cons b l => exact ⟨c, _, by rw [join_cons_cons]; rfl, by omega, by omega⟩
+
+theorem reprOptBools_head (o : Option (List Bool)) : ∃ r, reprOptBools o = 78 :: r ∨ reprOptBools o = 91 :: r := by
+  cases o with
+  | none => exact ⟨_, Or.inl rfl⟩
+  | some l => exact ⟨[44, 32].intercalate (l.map reprBool) ++ [93], Or.inr (by simp [reprOptBools])⟩
+
+theorem shapeCore_tail (base : Bytes) (subs : List Bytes) (names : Option (List Bytes))
+    (cards : Option (List Nat)) (lp links : Option (List Bool)) (impl : Bool) :
+    ∃ X, shapeCore base subs names cards lp links impl = X ++ 59 :: reprOptBools links := by
+  exact ⟨join 0 ([base, join 58 subs] ++ optNames names ++ optPart (cardChars cards)) ++
+    reprBool impl ++ [59] ++ reprOptBools lp, by simp [shapeCore]⟩
+
+theorem id_inj_shape {base base' : Bytes} {subs subs' : List Bytes}
+    {names names' : Option (List Bytes)} {cards cards' : Option (List Nat)}
+    {lp lp' links links' : Option (List Bool)} {impl impl' : Bool} {srcs srcs' : Option (List Bytes)}
+    (hs : (IdKey.shape base subs names cards lp links impl srcs).NoSep)
+    (hs' : (IdKey.shape base' subs' names' cards' lp' links' impl' srcs').NoSep)
+    (hc : (IdKey.shape base subs names cards lp links impl srcs).callerShaped)
+    (hc' : (IdKey.shape base' subs' names' cards' lp' links' impl' srcs').callerShaped)
+    (he : idPreimage (.shape base subs names cards lp links impl srcs) =
+          idPreimage (.shape base' subs' names' cards' lp' links' impl' srcs')) :
+    (IdKey.shape base subs names cards lp links impl srcs).norm =
+      (IdKey.shape base' subs' names' cards' lp' links' impl' srcs').norm := by
+  have hsrc := hs.2.2.2.2
+  have hsrc' := hs'.2.2.2.2
+  simp only [idPreimage, Option.some.injEq, srcTail] at he
+  simp only [IdKey.norm]
+  have fin : ∀ (hcore : shapeCore base subs names cards lp links impl =
+      shapeCore base' subs' names' cards' lp' links' impl') (ht : truthy srcs = truthy srcs'),
+      IdKey.shape base subs (truthy names) (truthy cards) lp links impl (truthy srcs) =
+        IdKey.shape base' subs' (truthy names') (truthy cards') lp' links' impl' (truthy srcs') := by
+    intro hcore ht
+    obtain ⟨e1, e2, e3, e4, e5, e6, e7⟩ := shapeCore_inj hs hs' hc hc' hcore
+    rw [e1, e2, e3, e4, e5, e6, e7, ht]
+  cases ht : truthy srcs with
+  | none =>
+    cases ht' : truthy srcs' with
+    | none =>
+      rw [ht, ht'] at he
+      simp only [List.append_nil] at he
+      have := fin he (by rw [ht, ht'])
+      rw [ht, ht'] at this
+      exact this
+    | some l' =>
+      exfalso
+      rw [ht, ht'] at he
+      obtain ⟨h1', h2'⟩ := truthy_some ht'
+      obtain ⟨X, hX⟩ := shapeCore_tail base subs names cards lp links impl
+      simp only [List.append_nil] at he
+      rw [hX] at he
+      obtain ⟨_, hr⟩ := last_sep (semi_notin_reprOptBools _) (semi_notin_join_uuid (hsrc' l' h1')) he
+      obtain ⟨c, r, hj, hc1, hc2⟩ := join_uuid_head h2' (hsrc' l' h1')
+      obtain ⟨r', hh⟩ := reprOptBools_head links
+      rw [hj] at hr
+      rcases hh with hh | hh <;> rw [hh] at hr <;> simp only [List.cons.injEq] at hr <;> omega
+  | some l =>
+    obtain ⟨h1, h2⟩ := truthy_some ht
+    cases ht' : truthy srcs' with
+    | none =>
+      exfalso
+      rw [ht, ht'] at he
+      obtain ⟨X, hX⟩ := shapeCore_tail base' subs' names' cards' lp' links' impl'
+      simp only [List.append_nil] at he
+      rw [hX] at he
+      obtain ⟨_, hr⟩ := last_sep (semi_notin_join_uuid (hsrc l h1)) (semi_notin_reprOptBools _) he
+      obtain ⟨c, r, hj, hc1, hc2⟩ := join_uuid_head h2 (hsrc l h1)
+      obtain ⟨r', hh⟩ := reprOptBools_head links'
+      rw [hj] at hr
+      rcases hh with hh | hh <;> rw [hh] at hr <;> simp only [List.cons.injEq] at hr <;> omega
+    | some l' =>
+      obtain ⟨h1', h2'⟩ := truthy_some ht'
+      rw [ht, ht'] at he
+      obtain ⟨hcore, hj⟩ := last_sep (semi_notin_join_uuid (hsrc l h1)) (semi_notin_join_uuid (hsrc' l' h1')) he
+      have hl : l = l' := join_inj_ne h2 h2' (fun a ha => (uuidText_notin (hsrc l h1 a ha)).2.1)
+        (fun a ha => (uuidText_notin (hsrc' l' h1' a ha)).2.1) hj
+      have := fin hcore (by rw [ht, ht', hl])
+      rw [ht, ht'] at this
+      exact this
 
 /-- **the id strings determine the arguments** (per id function); element names
     are arbitrary NUL-free texts -/
@@ -565,10 +667,10 @@ theorem id_inj (k₁ k₂ : IdKey) (hfn : k₁.fn = k₂.fn) (h₁ : k₁.NoSep)
     | coll ct' subs' names' => exact id_inj_coll h₁ h₂ c₁ c₂ he
     | shape => simp [IdKey.fn] at hfn
     | setOf => simp [IdKey.fn] at hfn
-  | shape base subs names cards lp links impl =>
+  | shape base subs names cards lp links impl srcs =>
     cases k₂ with
     | coll => simp [IdKey.fn] at hfn
-    | shape base' subs' names' cards' lp' links' impl' => exact id_inj_shape h₁ h₂ c₁ c₂ he
+    | shape base' subs' names' cards' lp' links' impl' srcs' => exact id_inj_shape h₁ h₂ c₁ c₂ he
     | setOf => simp [IdKey.fn] at hfn
   | setOf s =>
     cases k₂ with
@@ -594,13 +696,13 @@ theorem coll_collision : idPreimageBuggy collA = idPreimageBuggy collB ∧ collA
     subst h; rfl
 
 def shapeA : IdKey := .shape [84] [int64Str, int64Str] (some [[97, 58, 98], [99]]) (some [65, 65])
-  (some [false, false]) (some [false, false]) false
+  (some [false, false]) (some [false, false]) false none
 def shapeB : IdKey := .shape [84] [int64Str, int64Str] (some [[97], [98, 58, 99]]) (some [65, 65])
-  (some [false, false]) (some [false, false]) false
+  (some [false, false]) (some [false, false]) false none
 
 theorem shape_collision : idPreimageBuggy shapeA = idPreimageBuggy shapeB ∧ shapeA.norm ≠ shapeB.norm ∧
     idPreimage shapeA ≠ idPreimage shapeB := by
-  refine ⟨by decide, by decide, by decide⟩
+  refine ⟨by decide +kernel, by decide +kernel, by decide +kernel⟩
 
 end EdbVerif.Desc
 
@@ -629,5 +731,85 @@ theorem collB_noSep : collB.NoSep := by
     subst h
     simp only [List.mem_cons, List.not_mem_nil, or_false] at hn
     rcases hn with rfl | rfl <;> decide
+
+end EdbVerif.Desc
+
+namespace EdbVerif.Desc
+
+/-! ### sources at the level of `_describe_object_shape` (fix d2d2129) -/
+
+theorem all_eq_of_not_any {mt : Bytes} : ∀ {l : List Bytes}, l.any (· != mt) = false → ∀ x ∈ l, x = mt
+  | [], _, x, hx => by cases hx
+  | a :: l, h, x, hx => by
+    simp only [List.any_cons, Bool.or_eq_false_iff, bne_eq_false_iff_eq] at h
+    rcases List.mem_cons.mp hx with rfl | hx
+    · exact h.1
+    · exact all_eq_of_not_any h.2 x hx
+
+theorem eq_of_all_eq {mt : Bytes} : ∀ {l l' : List Bytes}, l.length = l'.length →
+    (∀ x ∈ l, x = mt) → (∀ x ∈ l', x = mt) → l = l'
+  | [], [], _, _, _ => rfl
+  | [], _ :: _, h, _, _ => by simp at h
+  | _ :: _, [], h, _, _ => by simp at h
+  | a :: l, b :: l', h, h1, h2 => by
+    have ea : a = mt := h1 a List.mem_cons_self
+    have eb : b = mt := h2 b List.mem_cons_self
+    have et : l = l' := eq_of_all_eq (by simpa using h) (fun x hx => h1 x (List.mem_cons_of_mem _ hx))
+      (fun x hx => h2 x (List.mem_cons_of_mem _ hx))
+    rw [ea, eb, et]
+
+/-- Two shapes over the same object type with the same elements: equal id strings
+    force equal source type lists — the hypothesis that makes the optional tail
+    injective is exactly how `_describe_object_shape` passes it: sources are given iff
+    some element's source differs from the shape's own type `mt`, one per element. -/
+theorem shapeKeyOf_sources_inj (base mt : Bytes) (subs names : List Bytes) (cards : List Nat)
+    (lp links : List Bool) (impl : Bool) (src src' : List Bytes)
+    (hl : src.length = subs.length) (hl' : src'.length = subs.length)
+    (h₁ : (shapeKeyOf base mt subs names cards lp links impl src).NoSep)
+    (h₂ : (shapeKeyOf base mt subs names cards lp links impl src').NoSep)
+    (c₁ : (shapeKeyOf base mt subs names cards lp links impl src).callerShaped)
+    (c₂ : (shapeKeyOf base mt subs names cards lp links impl src').callerShaped)
+    (he : idPreimage (shapeKeyOf base mt subs names cards lp links impl src) =
+          idPreimage (shapeKeyOf base mt subs names cards lp links impl src')) : src = src' := by
+  have hn := id_inj_shape h₁ h₂ c₁ c₂ he
+  simp only [IdKey.norm, IdKey.shape.injEq, true_and] at hn
+  have ht := hn
+  by_cases ha : src.any (· != mt) = true <;> by_cases ha' : src'.any (· != mt) = true
+  · simp only [ha, ha', if_true] at ht
+    cases src with
+    | nil => simp at ha
+    | cons a l =>
+      cases src' with
+      | nil => simp at ha'
+      | cons b l' => simpa [truthy] using ht
+  · simp only [ha, ha', if_true, Bool.false_eq_true, if_false] at ht
+    cases src with
+    | nil => simp at ha
+    | cons a l => simp [truthy] at ht
+  · simp only [ha, ha', if_true, Bool.false_eq_true, if_false] at ht
+    cases src' with
+    | nil => simp at ha'
+    | cons a l => simp [truthy] at ht
+  · exact eq_of_all_eq (hl.trans hl'.symm) (all_eq_of_not_any (by simpa using ha))
+      (all_eq_of_not_any (by simpa using ha'))
+
+/-! the witness pair `select Named { name, [is A].x }` / `select Named { name, [is B].x }` -/
+
+def strStr : Bytes := uuidStr [0, 0, 0, 0, 0, 0, 0, 0, 0, 0, 0, 0, 0, 0, 1, 1]
+def namedStr : Bytes := uuidStr [21, 148, 84, 9, 183, 196, 17, 241, 139, 108, 13, 165, 169, 14, 246, 118]
+def typeAStr : Bytes := uuidStr [21, 235, 188, 131, 183, 196, 17, 241, 176, 238, 137, 51, 195, 183, 182, 2]
+def typeBStr : Bytes := uuidStr [21, 239, 233, 5, 183, 196, 17, 241, 169, 156, 45, 123, 86, 210, 79, 148]
+/-- `default::Named` -/
+def namedName : Bytes := [100, 101, 102, 97, 117, 108, 116, 58, 58, 78, 97, 109, 101, 100]
+
+def polyA : IdKey := shapeKeyOf namedName namedStr [strStr, int64Str] [[110, 97, 109, 101], [120]] [65, 111]
+  [false, false] [false, false] false [namedStr, typeAStr]
+def polyB : IdKey := shapeKeyOf namedName namedStr [strStr, int64Str] [[110, 97, 109, 101], [120]] [65, 111]
+  [false, false] [false, false] false [namedStr, typeBStr]
+
+/-- before d2d2129 one id string, after it two -/
+theorem poly_pair : idPreimageNoSources polyA = idPreimageNoSources polyB ∧
+    idPreimage polyA ≠ idPreimage polyB ∧ polyA.norm ≠ polyB.norm := by
+  refine ⟨by decide +kernel, by decide +kernel, by decide +kernel⟩
 
 end EdbVerif.Desc
